@@ -26,7 +26,7 @@ func init() {
 		Level: "fault_enumeration",
 		Rule: "a real p9p.CSession client with P in {1,2,3,5,8,16} pending calls (unique ids) against a scripted fake server on a fault-injecting in-memory connection. Fault enumeration over a recorded fault-free run of the same scenario: the inbound stream is failed at EVERY byte offset k of the reply stream (error and EOF flavours), " +
 			"the connection is closed by the peer after every number of replies, EVERY client write j is failed (0 or partial bytes passed on), the session context is cancelled after every number of replies, and every single pending call is cancelled on its own; read errors come as plain errors and as permanent net.Errors (a client that keeps reading a permanently failed connection is detected by counting its reads after the failure, not by a timer); a call with a deadline context completes, the connection's (virtual) clock then passes that deadline, and a call without deadline must still go through on a connection that honours write deadlines; while one request write is stalled inside the connection, further calls are issued and their contexts ended (or had ended before): each must return. " +
-			"Hostile-peer sampling: valid frames with unknown / repeated / NOTAG / neighbouring tags, every R- and T-type as reply to every request kind, Rversion mid-session, frames from the abnormal classes (length prefix 0-3, truncated body, hostile inner lengths, unknown type, oversize) and pure garbage, followed or not by the correct replies. " +
+			"Hostile-peer sampling: valid frames with unknown / repeated / NOTAG / neighbouring tags, every R- and T-type as reply to every request kind, Rversion mid-session, frames from the abnormal classes (length prefix 0-3, truncated body, hostile inner lengths, unknown type, oversize), malformed directory data under a CFileSys listing (entry size and inner length fields claiming anything, cut entries, garbage) and pure garbage, followed or not by the correct replies. " +
 			"Oracle: the worker process survives (a crash is attributed to the logged case); at quiescence every pending call has returned; calls whose reply arrived intact before the fault return their own id, the others an error; a later call returns an error; a per-call cancel returns and leaves the other calls' results intact; a wrong-typed reply surfaces as an error. " +
 			"non-trivial = >= 1 call pending at the fault / hostile frame; distinct by (fault kind, index, pending count) or (frame class, request kind, pending count)",
 		Assumptions: []string{
@@ -39,7 +39,7 @@ func init() {
 		Shards:    shards(8, 16),
 		Timeout:   timeouts(4*time.Minute, 40*time.Minute),
 		MinEvals:  200,
-		Required:  []string{"fault:read-error", "fault:read-eof", "fault:peer-close", "fault:write-fail", "fault:ctx-cancel", "fault:call-cancel", "hostile:unknown-tag", "hostile:repeated-tag", "hostile:wrong-type", "hostile:abnormal-frame", "hostile:garbage", "hostile:overlong-rread", "fault:local-failure", "fault:read-neterror", "fault:deadline-then-plain", "fault:cancel-while-writer-busy", "later_call_checked", "pending_calls_returned"},
+		Required:  []string{"fault:read-error", "fault:read-eof", "fault:peer-close", "fault:write-fail", "fault:ctx-cancel", "fault:call-cancel", "hostile:unknown-tag", "hostile:repeated-tag", "hostile:wrong-type", "hostile:abnormal-frame", "hostile:garbage", "hostile:overlong-rread", "hostile:dir-data", "fault:local-failure", "fault:read-neterror", "fault:deadline-then-plain", "fault:cancel-while-writer-busy", "later_call_checked", "pending_calls_returned"},
 		Run:       runC12,
 	})
 }
@@ -1039,15 +1039,49 @@ func c12Hostile(w *mon.W, no int) {
 // peer answers every Tread with more bytes than were asked for: the client must survive
 // (a crash is observed through the case log) and must not hand out more than it asked.
 func c12OverlongDirRead(w *mon.W, no int) {
+	hostileData := no%2 == 1
 	desc := fmt.Sprintf("hostile #%d: directory listing through CFileSys, peer answers Tread with an over-long Rread", no)
+	if hostileData {
+		desc = fmt.Sprintf("hostile #%d: directory listing through CFileSys, peer answers Tread with malformed directory data", no)
+	}
 	w.Case("C12 %s", desc)
 	e := newC12(w, desc)
 	if e == nil {
 		return
 	}
 	defer e.h.close()
-	w.Count("hostile:overlong-rread", 1)
+	if hostileData {
+		w.Count("hostile:dir-data", 1)
+	} else {
+		w.Count("hostile:overlong-rread", 1)
+	}
 	entry, _ := refcodec.EncodeStat(p9p.Dir{Name: "entry", UID: "u", GID: "g", MUID: "m"})
+	// malformed directory data: one good entry, then an entry whose size or inner length
+	// fields claim anything at all, or that is cut short, or garbage
+	mkHostile := func() []byte {
+		r := w.Rng
+		bad := append([]byte{}, entry...)
+		switch r.Intn(5) {
+		case 0:
+			v := []uint16{0, 1, 2, 46, 47, 0x7FFF, 0x8000, 0xFF00, 0xFFFD, 0xFFFE, 0xFFFF, uint16(r.Intn(65536))}[r.Intn(12)]
+			bad[0], bad[1] = byte(v), byte(v>>8)
+		case 1:
+			bad = bad[:1+r.Intn(len(bad)-1)]
+		case 2:
+			// name length field (offset 41) claims more than there is
+			v := []uint16{0xFFFF, 0xFFFE, 0x8000, uint16(len(bad))}[r.Intn(4)]
+			bad[41], bad[42] = byte(v), byte(v>>8)
+		case 3:
+			bad = make([]byte, 1+r.Intn(80))
+			r.Read(bad)
+		default:
+			bad = []byte{0xFF, 0xFF}
+		}
+		if r.Intn(2) == 0 {
+			return bad
+		}
+		return append(append([]byte{}, entry...), bad...)
+	}
 	reads := 0
 	e.h.mu.Lock()
 	e.h.onReq = func(fc *p9p.Fcall) {
@@ -1063,8 +1097,15 @@ func c12OverlongDirRead(w *mon.W, no int) {
 				return
 			}
 			var data []byte
-			for len(data) <= int(m.Count)+200 {
-				data = append(data, entry...)
+			if hostileData {
+				data = mkHostile()
+				if len(data) > int(m.Count) {
+					data = data[:m.Count]
+				}
+			} else {
+				for len(data) <= int(m.Count)+200 {
+					data = append(data, entry...)
+				}
 			}
 			e.h.reply(&p9p.Fcall{Type: p9p.Rread, Tag: fc.Tag, Message: p9p.MessageRread{Data: data}})
 		default:
@@ -1098,5 +1139,9 @@ func c12OverlongDirRead(w *mon.W, no int) {
 		return
 	}
 	w.Eval()
-	w.NT("hostile/cfs-overlong-rread")
+	if hostileData {
+		w.NT(fmt.Sprintf("hostile/cfs-dir-data/%d", no))
+	} else {
+		w.NT("hostile/cfs-overlong-rread")
+	}
 }
